@@ -242,5 +242,51 @@ func (c *Ctx) writeEvidence(newViol, knownSeen int) {
 // HarnessError aborts the run with exit code 2 (never a VIOLATION).
 func HarnessError(format string, a ...any) {
 	fmt.Printf("HARNESS-ERROR: "+format+"\n", a...)
+	Cleanup()
 	os.Exit(2)
+}
+
+var scratchRoot string
+var scratchOwned bool
+
+// ScratchRoot is the per-run scratch directory on tmpfs (/dev/shm, fallback $TMPDIR). The coordinator creates and
+// removes it; workers inherit it through $VERIF_SCRATCH.
+func ScratchRoot() string {
+	if scratchRoot != "" {
+		return scratchRoot
+	}
+	if d := os.Getenv("VERIF_SCRATCH"); d != "" {
+		scratchRoot = d
+		return d
+	}
+	base := "/dev/shm"
+	if st, err := os.Stat(base); err != nil || !st.IsDir() {
+		base = os.TempDir()
+	}
+	d, err := os.MkdirTemp(base, fmt.Sprintf("verif-%d-", os.Getpid()))
+	if err != nil {
+		panic(err)
+	}
+	scratchRoot, scratchOwned = d, true
+	td := filepath.Join(d, "tmp")
+	os.MkdirAll(td, 0o700)
+	os.Setenv("TMPDIR", td)
+	return d
+}
+
+// Cleanup removes the scratch directory if this process created it.
+func Cleanup() {
+	if scratchOwned && scratchRoot != "" {
+		os.RemoveAll(scratchRoot)
+	}
+}
+
+// HasProp reports whether the comma separated list names the property.
+func HasProp(list, id string) bool {
+	for _, p := range strings.Split(list, ",") {
+		if p == id {
+			return true
+		}
+	}
+	return false
 }
